@@ -1160,6 +1160,12 @@ coap_wait_ack(coap_context_t *context, coap_session_t *session,
 
   node->session = coap_session_reference_lkd(session);
 
+  /* The 16 bit message id of this new Confirmable may have wrapped onto the
+   * id remembered by the duplicate filter for piggybacked responses: the
+   * acknowledgement of this message is not a duplicate of that one. */
+  if (session->last_ack_mid == node->id)
+    session->last_ack_mid = COAP_INVALID_MID;
+
   /* Set timer for pdu retransmission. If this is the first element in
   * the retransmission queue, the base time is set to the current
   * time and the retransmission time is node->timeout. If there is
